@@ -910,6 +910,8 @@ def tolerant_compare(f, l, r, rel=1e-9, abs_=1e-12):
         if f in (operator.le, operator.ge):
             return bool(np.all(f(la, ra) | close))
         return bool(np.all(f(la, ra) & ~close))
+    if f in (operator.lt, operator.gt) and (lf == 0 or rf == 0):
+        return f(lf, rf)                    # a sign test against exact zero: no absolute tolerance (tiny positive values are positive)
     close = math.isclose(lf, rf, rel_tol=rel, abs_tol=abs_) or (lf != lf and rf != rf)
     if f is operator.eq:
         return close
@@ -964,6 +966,10 @@ def _typhon_dunder(obj, name):
 def getitem_any(interp, obj, key):
     if isinstance(obj, SArr):
         return obj[key]
+    if isinstance(obj, Sym) and (key == () or key is Ellipsis):
+        return obj                  # x[()] / x[...] of a 0-d value (what NumPy scalars and 0-d arrays allow)
+    if isinstance(obj, Sym):
+        raise OutsideSubset("subscript %r of a symbolic scalar" % (key,))
     if not interp.concrete and _typhon_dunder(obj, "__getitem__") is not None:
         return interp.call_value(_typhon_dunder(obj, "__getitem__"), [obj, key], {}, None)
     if hasattr(obj, "__pyvc_getitem__"):
